@@ -1,7 +1,7 @@
 use arc_swap::{ArcSwap, ArcSwapOption};
 use paste::paste;
 use std::sync::{
-    atomic::{AtomicUsize, Ordering as AtomicOrdering},
+    atomic::{AtomicBool, AtomicUsize, Ordering as AtomicOrdering},
     Arc,
 };
 
@@ -137,6 +137,7 @@ macro_rules! combine_impls {
                             let n_start = Arc::new(AtomicUsize::new(N));
                             let n_data = Arc::new(AtomicUsize::new(N));
                             let n_end = Arc::new(AtomicUsize::new(N));
+                            let ended = Arc::new(AtomicBool::new(false));
                             let vals: Arc<ArcSwap<($(Option<$T>,)+)>> =
                                 Arc::new(Default::default());
                             let source_talkbacks: Arc<($(ArcSwapOption<Source<$T>>,)+)> =
@@ -146,6 +147,7 @@ macro_rules! combine_impls {
                                     #[cfg(feature = "tracing")]
                                     let combine_span = combine_span.clone();
                                     let source_talkbacks = Arc::clone(&source_talkbacks);
+                                    let ended = Arc::clone(&ended);
                                     move |message| {
                                         instrument!(
                                             parent: &combine_span,
@@ -174,6 +176,9 @@ macro_rules! combine_impls {
                                                 )+
                                             }
                                             Message::Error(ref error) => {
+                                                // a member that is still to be told to stop may
+                                                // emit while the others are being stopped
+                                                ended.store(true, AtomicOrdering::Release);
                                                 $(
                                                     if let Some(source_talkback) =
                                                         source_talkbacks.$idx.swap(None)
@@ -188,6 +193,7 @@ macro_rules! combine_impls {
                                                 )+
                                             }
                                             Message::Terminate => {
+                                                ended.store(true, AtomicOrdering::Release);
                                                 $(
                                                     if let Some(source_talkback) =
                                                         source_talkbacks.$idx.swap(None)
@@ -217,6 +223,7 @@ macro_rules! combine_impls {
                                             let n_start = Arc::clone(&n_start);
                                             let n_data = Arc::clone(&n_data);
                                             let n_end = Arc::clone(&n_end);
+                                            let ended = Arc::clone(&ended);
                                             let vals = Arc::clone(&vals);
                                             let source_talkbacks = Arc::clone(&source_talkbacks);
                                             let talkback = Arc::clone(&talkback);
@@ -260,7 +267,9 @@ macro_rules! combine_impls {
                                                                 AtomicOrdering::Acquire,
                                                             )
                                                         };
-                                                        if n_data == 0 {
+                                                        if n_data == 0
+                                                            && !ended.load(AtomicOrdering::Acquire)
+                                                        {
                                                             call!(
                                                                 sink,
                                                                 Message::Data(
@@ -280,7 +289,9 @@ macro_rules! combine_impls {
                                                     let n_end = n_end
                                                         .fetch_sub(1, AtomicOrdering::AcqRel)
                                                         - 1;
-                                                        if n_end == 0 {
+                                                        if n_end == 0
+                                                            && !ended.swap(true, AtomicOrdering::AcqRel)
+                                                        {
                                                             call!(
                                                                 sink,
                                                                 Message::Terminate,
